@@ -34,7 +34,8 @@ inductive E where
   | bytes (b : Bytes)
   | str (s : Name)
   | ostr                                              -- f-string / message text: content never inspected
-  | var (x : Name)                                    -- local variable, else module-level name
+  | var (x : Name)                                    -- local variable (a name the function assigns somewhere)
+  | glob (x : Name)                                   -- module-level name (never assigned in the function)
   | attr (e : E) (a : Name)
   | bin (op : BinOp) (a b : E)
   | inv (a : E)
@@ -454,10 +455,11 @@ mutual
     | .var x, st =>
       match getVar st.vars x with
       | some v => (.ok v, st)
-      | Option.none =>
-        match H.glob x with
-        | some v => (.ok v, st)
-        | Option.none => (raiseX xUnboundLocalError, st)
+      | Option.none => (raiseX xUnboundLocalError, st)
+    | .glob x, st =>
+      match H.glob x with
+      | some v => (.ok v, st)
+      | Option.none => (raiseX xNameError, st)
     | .attr e a, st =>
       match evalE H fuel e st with
       | (.error x, st') => (.error x, st')
